@@ -369,7 +369,14 @@ func GenOdd(r *core.PRNG) string {
 	ctl := core.Pick(r, []string{"break", "continue", "break", "if true { break }", "for { break }; break", "switch { case true: continue }", "return"})
 	loop := core.Pick(r, []string{"for", "for i := 0; i < 2; i++", "for _, v := range []int{1, 2}", "for k := range map[string]int{\"a\": 1}"})
 	n := core.Pick(r, wildInts)
-	switch r.Intn(20) {
+	switch r.Intn(21) {
+	case 20:
+		// long chains of calls in callee position
+		n := 2 + r.Intn(70)
+		if r.Bool() {
+			return "type B struct { N int }; func (b *B) Add(d int) *B { b.N = b.N + d; return b }; b := &B{}; b" + strings.Repeat(".Add(1)", n) + ".N"
+		}
+		return "func f() any { return f }; f" + strings.Repeat("()", n)
 	case 18:
 		// compound assignment on an index target whose index contains a function literal doing the same
 		d := 1 + r.Intn(6)
